@@ -19,6 +19,8 @@ python3 tools/gen_ser_ast.py > build/gen_ser_ast.log     # C16: Generated/SerAst
 python3 tools/gen_smp_ast.py > build/gen_smp_ast.log     # C09/C12/C15: Generated/SmpAst.lean (clang AST of the WHOLE samplers / setters: loops, request sizes, library calls; after gen_set_ast, ~4 s)
 python3 tools/gen_expr_ast.py > build/gen_expr_ast.log   # C07/C08/C09: Generated/ExprAst.lean (clang AST of the expression-template evaluation machinery; after gen_ops_ast + gen_simd_ast, ~5 s)
 python3 tools/gen_vloop_ast.py > build/gen_vloop_ast.log   # C05/C02/C01: Generated/VLoopAst.lean (clang AST, two vector configurations: loop structure of ntt_loop_sse_unrolled / ntt_loop_avx2_unrolled::run + core::ntt; after gen_simd_ast, gen_ntt_ast, gen_nttloop_ast, ~13 s)
+python3 tools/gen_setmpz_ast.py > build/gen_setmpz_ast.log   # C04/C15: Generated/SetMpzAst.lean (clang AST of poly::set_mpz<It>(It,It) + forwarding overloads / mpz constructors; after gen_crt_ast, ~3 s)
+python3 tools/gen_lut_ast.py > build/gen_lut_ast.log       # C10: Generated/LutAst.lean (clang AST of FastGaussianNoise.hpp: buildLookupTables, 4 instantiations, <3 s)
 python3 tools/gen_footprint.py > build/gen_footprint.log   # C17: Generated/Footprint.lean (valgrind-lackey, ~15 s)
 cd lean
 lake build NflVerif driver
